@@ -21,6 +21,9 @@ EXPLANATION = (
   " (LINT-i) as in C04;"
   " (RAISE-guard) no method that always raises (Ruby.push_child) is called on the parser cursor where the cursor can be a Ruby;"
   " (NUL, arithmetic) a timestamp that failed to parse is not used in arithmetic or ordering;"
+  ' (DEF-local) no local of the WebVTT reader is read unassigned; (FIN-timeexpr / FIN-pct) timestamp and percentage parsing evaluated on a grid equal the WebVTT grammar; (INV-ruby) the cursor is a Ruby only while both ruby containers are set, so markup inside ruby is routed through rb / rt;'
+  ' (ORD-br / PAIR-span) as for SRT; (ORD-settings / TAB-settings / TAB-region-key) cue settings are complete before a region is looked up, every setting has a branch, and regions are shared only on equal settings;'
+  ' (TYPESTATE-buffer / TYPESTATE-flush) the tokenizer leaves no state with a non-empty buffer unflushed at end of input or at a state change;'
 )
 RULE_TEXT = "per call site / function / enum / printed sample"
 UNDECIDED = ["cue-setting geometry (line numbers <= 0, position with size)", "tag scoping", "region sharing for equal settings"]
@@ -154,11 +157,7 @@ def check_time_expression(ctx):
   # hours are optional: a missing hh group counts as 0
   from ..consteval import ConstEval
   from ..rules.isdrules import substitute
-  mapping = {}
-  for n in ast.walk(rets[0].value):
-    if isinstance(n, ast.Call) and isinstance(n.func, ast.Attribute) and n.func.attr == "group" and n.args and isinstance(n.args[0], ast.Constant):
-      mapping[unparse(n)] = "__g_" + str(n.args[0].value)
-  e = substitute(rets[0].value, mapping)
+  e, _mapping = shape.groups_substituted(ix, f, rets[0].value)
   v = ConstEval(ix, symbolic_ok=False).try_ev(f.module, e, None, {"__g_hh": None, "__g_mm": "02", "__g_ss": "03", "__g_ms": "004"})
   from fractions import Fraction
   ctx.check(v == Fraction(123004, 1000), "FIN-timeexpr", f"{f.qualname}|hours optional", ctx.where(f.module, rets[0]), "mm:ss.ttt without hours is accepted",
